@@ -359,6 +359,25 @@ func (c14) Exec(script interface{}, c *core.Ctx) {
 		}
 		c.Probe("refused_call_before")
 	}
+	// a call on the PMT of ANOTHER program first, carried on a PID that the request under test
+	// names although this PMT does not have it (one wanted-PID list for a whole multiplex): that
+	// PID was a PMT PID a moment ago, here it is simply missing
+	for _, x := range missing {
+		if x > 0x1F && x < 0x1FFF && x != pmtPid && s.Out.Salt%5 < 2 {
+			prog := ref.PMTSpec{Program: 7, Version: 3, CurrentNext: true, PCRPID: 0x61, Streams: []ref.ES{{Type: 0x1B, PID: 0x61}, {Type: 0x0F, PID: 0x62}}}
+			pp := parties.Packetise(ref.Payload(0, [][]byte{prog.Section()}, 0), parties.Carrier{PID: x, Styles: []string{"ff"}})
+			var pps []*packet.Packet
+			for i := range pp {
+				q := packet.Packet(pp[i])
+				pps = append(pps, &q)
+			}
+			if !c.Call("psi.FilterPMTPacketsToPids(another program's PMT on a PID this request names)", func() { psi.FilterPMTPacketsToPids(pps, []int{0x61}) }) {
+				return
+			}
+			c.Probe("missing_pid_was_the_previous_calls_pmt_pid")
+			break
+		}
+	}
 	// the request is a slice of a longer array of the caller's (spare capacity behind it,
 	// filled with values of the caller's own): the call has no business writing there
 	spare := []int{0, 1, 3}[(s.Out.Salt/3)%3]
